@@ -439,3 +439,811 @@ End StepCases.
 
 Lemma inv_recycled : forall s p, Inv s -> Inv (with_recycled s p).
 Proof. intros s p I. destruct I. constructor; auto. Qed.
+
+Ltac prj := cbn [tpc goto with_pos with_bufs with_seg with_ex finish lo hi se pos buf held ex prog opi results].
+Ltac owns_same P := let r := fresh "r" in let i := fresh "i" in intros r i; unfold owns, in_seg; prj; rewrite ?P; try tauto.
+Ltac cnt_tpg := intro x; unfold tpg; prj; rewrite ?cnt_app, ?cnt_nil; try lia.
+
+Lemma inv_step : forall s t s', Inv s -> step s t = Some s' -> Inv s'.
+Proof.
+  intros s t s' I H. unfold step in H. destruct (nth_error (threads s) t) as [th|] eqn:Ht; [|discriminate].
+  pose proof (i_kn _ I _ _ Ht) as K. unfold step_thread in H. unfold knows in K.
+  destruct (tpc th) eqn:P.
+  - (* Idle *) destruct (cur_op th) as [[n|n| | | | | | ]|] eqn:Op; try discriminate.
+    + (* OAlloc *) inversion H; subst s'; clear H. apply (step_local _ _ _ I Ht).
+      * owns_same P.
+      * unfold knows; prj. discriminate.
+      * cnt_tpg. rewrite K, cnt_nil. lia.
+    + (* OFree *) inversion H; subst s'; clear H. apply (step_local _ _ _ I Ht).
+      * owns_same P.
+      * unfold knows; prj. intros _. rewrite free_need_spec. lia.
+      * cnt_tpg. rewrite K, cnt_nil. pose proof (cnt_firstn_skipn n (held th) x). lia.
+    + (* OPoolPop *) inversion H; subst s'; clear H. apply (step_local _ _ _ I Ht).
+      * owns_same P.
+      * unfold knows; prj. discriminate.
+      * cnt_tpg. rewrite K, cnt_nil. lia.
+    + (* OPoolPush *) destruct (held th) as [|p h] eqn:Hh; inversion H; subst s'; clear H.
+      * apply (step_local _ _ _ I Ht).
+        -- owns_same P.
+        -- unfold knows; prj. reflexivity.
+        -- cnt_tpg. rewrite Hh, K, !cnt_nil. lia.
+      * apply (step_local (with_recycled s p) t th (inv_recycled _ _ I) Ht).
+        -- owns_same P.
+        -- unfold knows; prj. reflexivity.
+        -- cnt_tpg. rewrite Hh, K, cnt_nil, (cnt_cons p h). lia.
+    + (* ONew *) inversion H; subst s'; clear H. apply (step_upstream _ _ _ I Ht).
+      * owns_same P.
+      * unfold knows; prj. reflexivity.
+      * cnt_tpg. rewrite K, cnt_nil, cnt_one.
+        destruct (Nat.eqb_spec (fresh s) x); destruct (Nat.ltb_spec x (fresh s)); destruct (Nat.ltb_spec x (fresh s + 1)); lia.
+    + (* OSPop *) inversion H; subst s'; clear H. replace (S (npop s)) with (ctr s false + 1) by (cbn; lia).
+      apply (step_gain _ _ _ I Ht).
+      * owns_same P. cbn. intuition lia.
+      * unfold knows; prj. exact K.
+      * cnt_tpg.
+    + (* OSPush *) destruct (held th) as [|p h] eqn:Hh; inversion H; subst s'; clear H.
+      * apply (step_local _ _ _ I Ht).
+        -- owns_same P.
+        -- unfold knows; prj. reflexivity.
+        -- cnt_tpg. rewrite Hh, K, !cnt_nil. lia.
+      * replace (S (npush s)) with (ctr (with_recycled s p) true + 1) by (cbn; lia).
+        apply (step_gain (with_recycled s p) t th (inv_recycled _ _ I) Ht).
+        -- owns_same P. cbn. intuition lia.
+        -- unfold knows; prj. eauto.
+        -- cnt_tpg. rewrite Hh, K, cnt_nil, (cnt_cons p h). lia.
+    + (* OTryPop *) inversion H; subst s'; clear H. apply (step_local _ _ _ I Ht).
+      * owns_same P.
+      * unfold knows; prj. exact K.
+      * cnt_tpg.
+  - (* Claim *) inversion H; subst s'; clear H. apply (step_gain _ _ _ I Ht).
+    + owns_same P. destruct (Nat.eqb_spec need 0); cbn; intuition lia.
+    + unfold knows; prj. destruct (Nat.eqb_spec need 0); cbn; auto.
+      unfold seg_inv; prj. unfold first_seg_end. pose proof (round_end_gt (qcap s) (ctr s r) (i_q _ I)).
+      repeat split; try lia. intros Hr. specialize (K Hr). lia.
+    + cnt_tpg.
+  - (* WCheck *) destruct K as (K1 & K2 & K3 & K4 & K5).
+    destruct (if r then push_ready (qcap s) (tape s) (pos th) else pop_ready (tape s) (pos th)) eqn:R.
+    + assert (RD : ready s r (pos th)) by (unfold ready; destruct r; exact R).
+      assert (K4' : forall m, lo th <= m < S (pos th) -> ready s r m).
+      { intros m Hm. destruct (Nat.eq_dec m (pos th)); [subst; auto | apply K4; lia]. }
+      destruct (Nat.eqb_spec (S (pos th)) (se th)); inversion H; subst s'; clear H; apply (step_local _ _ _ I Ht).
+      * owns_same P.
+      * unfold knows; prj. repeat split; try lia; auto. intros m Hm. apply K4'. lia.
+      * cnt_tpg.
+      * owns_same P.
+      * unfold knows, seg_inv; prj. repeat split; try lia; auto.
+      * cnt_tpg.
+    + inversion H; subst s'; clear H; apply (step_local _ _ _ I Ht).
+      * owns_same P.
+      * unfold knows, seg_inv; prj. repeat split; try lia; auto.
+      * cnt_tpg.
+  - (* WNeed *) destruct (comp_now r (npop s) (npush s) (qcap s) (lo th) (se th - lo th));
+      inversion H; subst s'; clear H; apply (step_local _ _ _ I Ht); try (owns_same P); try cnt_tpg; unfold knows; prj; exact K.
+  - (* TIdx *) inversion H; subst s'; clear H; apply (step_local _ _ _ I Ht); try (owns_same P); try cnt_tpg; unfold knows; prj; exact K.
+  - (* TVer *) destruct (if r then pop_ready (tape s) k else push_ready (qcap s) (tape s) k) eqn:R;
+      inversion H; subst s'; clear H; apply (step_local _ _ _ I Ht); try (owns_same P); try cnt_tpg; unfold knows; prj; auto.
+    split; auto. intros _. unfold ready. destruct r; exact R.
+  - (* TCas *) destruct K as [KA KB]. destruct (Nat.eqb_spec (ctr s (negb r)) k) as [E|E]; inversion H; subst s'; clear H.
+    + replace (S k) with (ctr s (negb r) + 1) by lia. apply (step_gain _ _ _ I Ht).
+      * owns_same P. rewrite E. intuition (subst; try lia; auto).
+      * unfold knows; prj. split; [exact KA | apply KB; lia].
+      * cnt_tpg.
+    + apply (step_local _ _ _ I Ht); try (owns_same P); try cnt_tpg. unfold knows; prj. exact KA.
+  - (* TAct *) destruct K as [KA KB]. destruct r.
+    + (* deallocate compensates: pop cell k, return the page upstream *)
+      unfold ready in KB. cbn [negb] in KB. unfold pop_ready in KB. destruct (tget (tape s) k) as [|p|] eqn:E; try discriminate.
+      unfold take in H. rewrite E in H. inversion H; subst s'; clear H.
+      apply (step_take _ _ _ I Ht k p).
+      * unfold owns. rewrite P. right. split; reflexivity.
+      * exact E.
+      * owns_same P; try (destruct r; intuition (try discriminate; try congruence)).
+      * unfold knows; prj. eapply (seg_inv_frame s); [reflexivity | | discriminate | exact KA].
+        intros i Hi. cbn [with_mem tape]. destruct (Nat.eq_dec i k) as [->|Hne]; [apply tget_tset_same | rewrite tget_tset_other; auto].
+      * cnt_tpg. cbn [with_mem returned]. lia.
+    + (* allocate compensates: push a fresh page into cell k *)
+      unfold ready in KB. cbn [negb] in KB.
+      assert (Ok : owns true th k) by (unfold owns; rewrite P; right; split; reflexivity).
+      pose proof (i_c4 _ I _ _ _ Ht Ok) as E.
+      unfold upstream_alloc, put in H. cbn [with_mem tape qcap fresh returned err] in H. rewrite E, KB in H. cbn [is_free andb] in H.
+      inversion H; subst s'; clear H.
+      apply (step_put _ _ _ I Ht k (fresh s) _ (fresh s + 1)); auto.
+      * owns_same P; try (destruct r; intuition (try discriminate; try congruence)).
+      * unfold knows; prj. eapply (seg_inv_frame s); [reflexivity | | | exact KA].
+        -- intros i Hi. cbn [with_mem tape]. destruct (Nat.eq_dec i k) as [->|Hne]; [congruence | rewrite tget_tset_other; auto].
+        -- intros _ i Hi. left. cbn [with_mem tape]. destruct (Nat.eq_dec i k) as [->|Hne]; [rewrite tget_tset_same; reflexivity | rewrite tget_tset_other; auto].
+      * cnt_tpg. rewrite cnt_one.
+        destruct (Nat.eqb_spec (fresh s) x); destruct (Nat.ltb_spec x (fresh s)); destruct (Nat.ltb_spec x (fresh s + 1)); lia.
+  - (* Act *) destruct K as (K1 & K2 & K3 & K4).
+    assert (Ok : owns r th (lo th)) by (unfold owns, in_seg; rewrite P; split; auto; lia).
+    pose proof (K3 (lo th) ltac:(lia)) as R0.
+    destruct r.
+    + (* deallocate: write the next page into cell lo *)
+      unfold ready in R0. pose proof (i_c4 _ I _ _ _ Ht Ok) as E.
+      destruct (buf th) as [|p b] eqn:B; [specialize (K4 eq_refl); cbn in K4; lia|].
+      unfold put in H. rewrite E, R0 in H. cbn [is_free andb] in H.
+      assert (PR : forall m, push_ready (qcap s) (tape s) m = true ->
+                   push_ready (qcap s) (tset (tape s) (lo th) (Full p)) m = true).
+      { intros m. apply push_ready_mono. intros i Hi. destruct (Nat.eq_dec i (lo th)) as [->|Hne]; [congruence | rewrite tget_tset_other; auto]. }
+      specialize (K4 eq_refl). cbn [length] in K4.
+      destruct (Nat.eqb_spec (S (lo th)) (se th)) as [e1|e1]; [destruct (Nat.eqb_spec (se th) (hi th)) as [e2|e2]|];
+        inversion H; subst s'; clear H; apply (step_put _ _ _ I Ht (lo th) p _ (fresh s)); auto;
+        try (owns_same P; destruct r; intuition (try discriminate; try congruence; try lia));
+        try (cnt_tpg; rewrite B, (cnt_cons p b); lia).
+      * unfold knows; prj. exact Logic.I.
+      * unfold knows, seg_inv; prj. repeat split; try lia.
+      * unfold knows; prj. repeat split; try lia. intros m Hm. unfold ready. cbn [with_mem qcap tape]. apply PR. apply (K3 m). lia.
+    + (* allocate: read the page of cell lo *)
+      unfold ready, pop_ready in R0. destruct (tget (tape s) (lo th)) as [|p|] eqn:E; try discriminate.
+      unfold take in H. rewrite E in H.
+      destruct (Nat.eqb_spec (S (lo th)) (se th)) as [e1|e1]; [destruct (Nat.eqb_spec (se th) (hi th)) as [e2|e2]|];
+        inversion H; subst s'; clear H; apply (step_take _ _ _ I Ht (lo th) p); auto;
+        try (owns_same P; destruct r; intuition (try discriminate; try congruence; try lia));
+        try (cnt_tpg; lia).
+      * unfold knows; prj. exact Logic.I.
+      * unfold knows, seg_inv; prj. repeat split; try lia; try discriminate.
+      * unfold knows; prj. repeat split; try lia; try discriminate. intros m Hm. unfold ready, pop_ready. cbn [with_mem tape].
+        rewrite tget_tset_other by lia. apply (K3 m). lia.
+  - (* Extra *) destruct r.
+    + inversion H; subst s'; clear H. unfold upstream_free. apply (step_upstream _ _ _ I Ht).
+      * owns_same P.
+      * unfold knows; prj. reflexivity.
+      * cnt_tpg.
+    + unfold upstream_alloc in H. inversion H; subst s'; clear H. apply (step_upstream _ _ _ I Ht).
+      * owns_same P.
+      * unfold knows; prj. reflexivity.
+      * cnt_tpg. rewrite cnt_seq.
+        destruct (Nat.leb_spec (fresh s) x); destruct (Nat.ltb_spec x (fresh s + ex th)); destruct (Nat.ltb_spec x (fresh s)); cbn [andb]; lia.
+  - (* SWait *) assert (Ok : owns r th i) by (unfold owns; rewrite P; auto). destruct r.
+    + destruct (push_ready (qcap s) (tape s) i) eqn:R; try discriminate. destruct K as [p B]. rewrite B in H.
+      pose proof (i_c4 _ I _ _ _ Ht Ok) as E. unfold put in H. rewrite E, R in H. cbn [is_free andb] in H.
+      inversion H; subst s'; clear H. apply (step_put _ _ _ I Ht i p _ (fresh s)); auto.
+      * owns_same P; try (destruct r; intuition (try discriminate; try congruence)).
+      * unfold knows; prj. reflexivity.
+      * cnt_tpg. rewrite B. lia.
+    + destruct (pop_ready (tape s) i) eqn:R; try discriminate. unfold pop_ready in R.
+      destruct (tget (tape s) i) as [|p|] eqn:E; try discriminate. unfold take in H. rewrite E in H.
+      inversion H; subst s'; clear H. apply (step_take _ _ _ I Ht i p); auto.
+      * owns_same P; try (destruct r; intuition (try discriminate; try congruence)).
+      * unfold knows; prj. reflexivity.
+      * cnt_tpg. rewrite K, cnt_nil. lia.
+  - (* YVer *) destruct (pop_ready (tape s) k) eqn:R; [|destruct (Nat.eqb_spec (npop s) k)];
+      inversion H; subst s'; clear H; apply (step_local _ _ _ I Ht); try (owns_same P); unfold knows; prj; auto.
+    all: cnt_tpg; rewrite ?K, ?cnt_nil; lia.
+  - (* YCas *) destruct K as [KA KB]. destruct (Nat.eqb_spec (npop s) k) as [e|e]; inversion H; subst s'; clear H.
+    + replace (S k) with (ctr s false + 1) by (cbn; lia). apply (step_gain _ _ _ I Ht).
+      * owns_same P. cbn [ctr]. rewrite e. intuition (subst; try lia; auto).
+      * unfold knows; prj. split; auto. apply KB. lia.
+      * cnt_tpg.
+    + apply (step_local _ _ _ I Ht); try (owns_same P); try cnt_tpg. unfold knows; prj. exact KA.
+  - (* YAct *) destruct K as [KA KB]. unfold ready, pop_ready in KB.
+    destruct (tget (tape s) k) as [|p|] eqn:E; try discriminate. unfold take in H. rewrite E in H.
+    inversion H; subst s'; clear H. apply (step_take _ _ _ I Ht k p); auto.
+    + unfold owns. rewrite P. auto.
+    + owns_same P; try (destruct r; intuition (try discriminate; try congruence)).
+    + unfold knows; prj. reflexivity.
+    + cnt_tpg. rewrite KA, cnt_nil. lia.
+  - (* PSize1 *) inversion H; subst s'; clear H; apply (step_local _ _ _ I Ht); try (owns_same P); try cnt_tpg. unfold knows; prj. exact K.
+  - (* PSize2 *) destruct (pool_drops (pcap s) (npush s) a); inversion H; subst s'; clear H.
+    + unfold upstream_free. apply (step_upstream _ _ _ I Ht).
+      * owns_same P.
+      * unfold knows; prj. reflexivity.
+      * cnt_tpg.
+    + apply (step_local _ _ _ I Ht); [owns_same P | unfold knows; prj; intros _; rewrite pool_push_n_one, K; auto | cnt_tpg].
+Qed.
+
+(* ------------------------------------------------------------------ initial state, reachability *)
+Definition Reach (qc pc : nat) (progs : list (list op)) (s : st) : Prop := reachable st step (init qc pc progs) s.
+
+Lemma all_thr_init : forall progs x, cnt (flat_map tpg (map mk_thread progs)) x = 0.
+Proof. induction progs; intros; cbn; auto. Qed.
+Lemma nth_map_mk : forall progs t th, nth_error (map mk_thread progs) t = Some th -> exists p, th = mk_thread p.
+Proof. intros. rewrite nth_error_map in H. destruct (nth_error progs t); inversion H. eauto. Qed.
+
+Lemma inv_init : forall qc pc progs, 1 <= qc -> Inv (init qc pc progs).
+Proof.
+  intros qc pc progs Hq.
+  assert (NO : forall t th r i, nth_error (threads (init qc pc progs)) t = Some th -> owns r th i -> False).
+  { intros t th r i H O. apply nth_map_mk in H. destruct H as [p ->]. exact O. }
+  constructor; cbn [init qcap npush npop tape fresh returned err]; auto.
+  - intros. exfalso. eapply NO; eauto.
+  - intros. exfalso. eapply NO; eauto.
+  - intros. rewrite tget_nil. discriminate.
+  - intros. apply tget_nil.
+  - intros. exfalso. eapply NO; eauto.
+  - intros. exfalso. eapply NO; eauto.
+  - intros. lia.
+  - intros. lia.
+  - intros t th H. apply nth_map_mk in H. destruct H as [p ->]. reflexivity.
+  - intros i H. rewrite tget_nil in H. congruence.
+  - intros x. unfold all_thr. cbn [init threads]. rewrite all_thr_init. cbn. reflexivity.
+Qed.
+
+Theorem pa_inv : forall qc pc progs s, 1 <= qc -> Reach qc pc progs s -> Inv s.
+Proof.
+  intros qc pc progs s Hq R. eapply (inv_reachable st step Inv); eauto.
+  - apply inv_init; auto.
+  - intros. eapply inv_step; eauto.
+Qed.
+
+(* ------------------------------------------------------------------ single owner, conservation *)
+Definition pages_of (s : st) : list nat := tape_pages (tape s) ++ all_held s ++ all_buf s ++ returned s.
+
+Lemma cnt_all_thr : forall l x, cnt (flat_map tpg l) x = cnt (flat_map held l) x + cnt (flat_map buf l) x.
+Proof. induction l; intros; cbn; auto. unfold tpg at 1. rewrite !cnt_app, IHl. lia. Qed.
+
+Lemma cnt_pages_of : forall s x, Inv s -> cnt (pages_of s) x = if x <? fresh s then 1 else 0.
+Proof.
+  intros s x I. unfold pages_of, all_held, all_buf. rewrite !cnt_app. pose proof (i_cnt _ I x) as H.
+  unfold all_thr in H. rewrite cnt_all_thr in H. lia.
+Qed.
+
+Theorem pa_conservation : forall s, Inv s -> Permutation (pages_of s) (seq 0 (fresh s)).
+Proof. intros s I. apply perm_of_cnt. intro x. rewrite cnt_pages_of, cnt_seq0; auto. Qed.
+
+Theorem pa_single_owner : forall s, Inv s -> NoDup (pages_of s) /\ err s = false.
+Proof.
+  intros s I. split; [|apply (i_err _ I)]. apply nodup_of_cnt. intro x. rewrite cnt_pages_of; auto.
+  destruct (x <? fresh s); lia.
+Qed.
+
+Lemma quiescent_buf : forall s, Inv s -> quiescent s = true -> all_buf s = [].
+Proof.
+  intros s I Q. unfold all_buf, quiescent in *.
+  assert (H : forall t th, nth_error (threads s) t = Some th -> knows s th) by (apply (i_kn _ I)).
+  revert Q H. generalize (threads s). induction l as [|th l IH]; intros Q H; cbn in *; auto.
+  apply andb_prop in Q. destruct Q as [Q1 Q2]. specialize (H 0 th eq_refl) as K. unfold knows in K. unfold is_idle in Q1.
+  destruct (tpc th); try discriminate. rewrite K. cbn. apply IH; auto. intros t th' E. apply (H (S t) th' E).
+Qed.
+
+Theorem pa_conservation_quiescent : forall s, Inv s -> quiescent s = true ->
+  fresh s - length (returned s) = length (all_held s) + length (tape_pages (tape s)) /\ length (returned s) <= fresh s.
+Proof.
+  intros s I Q. pose proof (Permutation_length (pa_conservation s I)) as L. unfold pages_of in L.
+  rewrite (quiescent_buf s I Q) in L. rewrite !app_length, seq_length in L. cbn in L. lia.
+Qed.
+
+(* ------------------------------------------------------------------ shape of the tape when nobody holds a ticket *)
+Definition no_owner (s : st) : Prop := forall t th r i, nth_error (threads s) t = Some th -> ~ owns r th i.
+
+Lemma quiescent_no_owner : forall s, quiescent s = true -> no_owner s.
+Proof.
+  intros s Q t th r i H O. unfold quiescent in Q. rewrite forallb_forall in Q. specialize (Q th (nth_error_In _ _ H)).
+  unfold is_idle in Q. unfold owns in O. destruct (tpc th); try discriminate. exact O.
+Qed.
+
+Lemma tape_shape : forall s, Inv s -> no_owner s ->
+  (forall j, j < npop s -> tget (tape s) j = Consumed) /\
+  (forall j, npop s <= j < npush s -> is_full (tget (tape s) j) = true) /\
+  (forall j, npush s <= j -> tget (tape s) j = Free) /\
+  npop s <= npush s /\ npush s - npop s <= qcap s.
+Proof.
+  intros s I N.
+  assert (A : forall j, j < npop s -> tget (tape s) j = Consumed).
+  { intros j Hj. destruct (i_d1 _ I j Hj) as [E|(t & th & H & O)]; auto. exfalso. eapply N; eauto. }
+  assert (B : forall j, j < npush s -> tget (tape s) j <> Free).
+  { intros j Hj. destruct (i_d2 _ I j Hj) as [E|(t & th & H & O)]; auto. exfalso. eapply N; eauto. }
+  assert (C : npop s <= npush s).
+  { destruct (Nat.le_gt_cases (npop s) (npush s)); auto. pose proof (A (npush s) H). pose proof (i_c2 _ I (npush s) (le_n _)). congruence. }
+  repeat split; auto.
+  - intros j [H1 H2]. pose proof (B j H2). pose proof (i_c1 _ I j H1). destruct (tget (tape s) j); auto; congruence.
+  - apply (i_c2 _ I).
+  - destruct (Nat.le_gt_cases (npush s - npop s) (qcap s)); auto. exfalso.
+    pose proof (i_k1 _ I (npush s - 1 - qcap s)) as K. replace (npush s - 1 - qcap s + qcap s) with (npush s - 1) in K by lia.
+    specialize (K (B (npush s - 1) ltac:(lia))). apply (i_c1 _ I (npush s - 1 - qcap s)); auto. lia.
+Qed.
+
+(* a page is cached only in Full cells: bound on the cache content *)
+Lemma tape_pages_bound : forall tp a b, (forall j, is_full (tget tp j) = true -> a <= j < b) -> length (tape_pages tp) <= b - a.
+Proof.
+  unfold tape_pages. induction tp as [|c tp IH]; intros a b H; cbn; try lia.
+  rewrite app_length. assert (T : forall j, is_full (tget tp j) = true -> a - 1 <= j < b - 1).
+  { intros j F. specialize (H (S j) F). lia. }
+  specialize (IH _ _ T). destruct c; cbn; try lia.
+  specialize (H 0 eq_refl). lia.
+Qed.
+Lemma tape_pages_none : forall tp, (forall j, is_full (tget tp j) = false) -> tape_pages tp = [].
+Proof.
+  intros tp H. assert (L : length (tape_pages tp) <= 0 - 0).
+  { apply tape_pages_bound. intros j F. rewrite H in F. discriminate. }
+  destruct (tape_pages tp); auto. cbn in L. lia.
+Qed.
+
+Theorem pa_cache_bounded_quiescent : forall s, Inv s -> quiescent s = true -> length (tape_pages (tape s)) <= qcap s.
+Proof.
+  intros s I Q. destruct (tape_shape s I (quiescent_no_owner s Q)) as (A & B & C & D & E).
+  pose proof (tape_pages_bound (tape s) (npop s) (npush s)) as H. etransitivity; [apply H|lia].
+  intros j F. destruct (Nat.lt_ge_cases j (npop s)) as [X|X]; [rewrite (A j X) in F; discriminate|].
+  destruct (Nat.lt_ge_cases j (npush s)) as [Y|Y]; [lia|]. rewrite (C j Y) in F. discriminate.
+Qed.
+
+(* ------------------------------------------------------------------ strict pool: a blocked pop means the pool is empty *)
+Theorem pa_blocked_pop_enabled : forall s t th i, nth_error (threads s) t = Some th -> tpc th = SWait false i ->
+  pop_ready (tape s) i = true -> step s t <> None.
+Proof.
+  intros s t th i H P R. unfold step. rewrite H. unfold step_thread. rewrite P, R. destruct (take s i). discriminate.
+Qed.
+
+Theorem pa_blocked_pop_means_empty : forall s, Inv s ->
+  (forall t th, nth_error (threads s) t = Some th ->
+     tpc th = Idle \/ exists i, tpc th = SWait false i /\ pop_ready (tape s) i = false) ->
+  (exists t th i, nth_error (threads s) t = Some th /\ tpc th = SWait false i) ->
+  tape_pages (tape s) = [].
+Proof.
+  intros s I All (t0 & th0 & i0 & H0 & P0). apply tape_pages_none. intro j.
+  destruct (is_full (tget (tape s) j)) eqn:F; auto. exfalso.
+  assert (NP : forall t th i, nth_error (threads s) t = Some th -> ~ owns true th i).
+  { intros t th i H O. destruct (All t th H) as [E|(k & E & _)]; unfold owns in O; rewrite E in O; auto. destruct O; discriminate. }
+  assert (BL : forall t th i, nth_error (threads s) t = Some th -> owns false th i -> pop_ready (tape s) i = false).
+  { intros t th i H O. destruct (All t th H) as [E|(k & E & R)]; unfold owns in O; rewrite E in O; try contradiction.
+    destruct O as [_ ->]. auto. }
+  destruct (Nat.lt_ge_cases j (npop s)) as [X|X].
+  - destruct (i_d1 _ I j X) as [E|(t & th & H & O)].
+    + rewrite E in F. discriminate.
+    + pose proof (BL _ _ _ H O) as R. unfold pop_ready in R. congruence.
+  - assert (O0 : owns false th0 i0) by (unfold owns; rewrite P0; auto).
+    pose proof (i_lt _ I _ _ _ _ H0 O0) as L. cbn in L.
+    assert (J : j < npush s).
+    { destruct (Nat.lt_ge_cases j (npush s)); auto. rewrite (i_c2 _ I j) in F; auto. discriminate. }
+    destruct (i_d2 _ I i0 ltac:(lia)) as [E|(t & th & H & O)].
+    + pose proof (i_c3 _ I _ _ _ H0 O0) as NC. pose proof (BL _ _ _ H0 O0) as R. unfold pop_ready in R.
+      destruct (tget (tape s) i0); cbn in R; congruence.
+    + eapply NP; eauto.
+Qed.
+
+(* ------------------------------------------------------------------ ~CachedPageAllocator *)
+Definition defull (c : cell) : cell := match c with Full _ => Consumed | x => x end.
+Definition drop1 (s : st) (i : nat) : st := let (s1, l) := take s i in upstream_free s1 l.
+Definition psum (s : st) (x : nat) : nat := cnt (tape_pages (tape s)) x + cnt (returned s) x.
+Definition same_rest (s s1 : st) : Prop :=
+  qcap s1 = qcap s /\ threads s1 = threads s /\ fresh s1 = fresh s /\ npush s1 = npush s /\ (forall x, psum s1 x = psum s x).
+
+Lemma drop1_spec : forall s i,
+  (forall j, tget (tape (drop1 s i)) j = if Nat.eqb j i then defull (tget (tape s) i) else tget (tape s) j) /\
+  same_rest s (drop1 s i) /\ npop (drop1 s i) = npop s.
+Proof.
+  intros s i. unfold drop1, take. destruct (tget (tape s) i) as [|p|] eqn:E; cbn [upstream_free with_mem tape returned fresh err qcap threads npush npop].
+  - repeat split; auto.
+    + intros j. destruct (Nat.eqb_spec j i); subst; auto.
+    + intros x. unfold psum. cbn [upstream_free with_mem tape returned]. rewrite app_nil_r. reflexivity.
+  - repeat split; auto.
+    + intros j. destruct (Nat.eqb_spec j i); subst; cbn [defull]; [apply tget_tset_same | apply tget_tset_other; auto].
+    + intros x. unfold psum. cbn [upstream_free with_mem tape returned]. rewrite cnt_app.
+      pose proof (cnt_tape_set i (tape s) Consumed x) as H. rewrite E in H. cbn [cell_pages] in H. rewrite cnt_nil in H. lia.
+  - repeat split; auto.
+    + intros j. destruct (Nat.eqb_spec j i); subst; auto.
+    + intros x. unfold psum. cbn [upstream_free with_mem tape returned]. rewrite app_nil_r. reflexivity.
+Qed.
+
+Lemma drop_cells_unfold : forall s i n, drop_cells s i (S n) = drop_cells (drop1 s i) (S i) n.
+Proof. intros. cbn [drop_cells]. unfold drop1. destruct (take s i). reflexivity. Qed.
+
+Lemma drop_cells_spec : forall c s i,
+  (forall j, tget (tape (drop_cells s i c)) j = if (i <=? j) && (j <? i + c) then defull (tget (tape s) j) else tget (tape s) j) /\
+  same_rest s (drop_cells s i c) /\ npop (drop_cells s i c) = npop s.
+Proof.
+  induction c as [|c IH]; intros s i.
+  - cbn [drop_cells]. repeat split; auto. intros j. destruct (Nat.leb_spec i j); destruct (Nat.ltb_spec j (i + 0)); cbn [andb]; auto; lia.
+  - rewrite drop_cells_unfold. destruct (IH (drop1 s i) (S i)) as (A & (B1 & B2 & B3 & B4 & B5) & C).
+    destruct (drop1_spec s i) as (D & (E1 & E2 & E3 & E4 & E5) & F).
+    repeat split; try congruence.
+    + intros j. rewrite A, D.
+      destruct (Nat.leb_spec (S i) j); destruct (Nat.ltb_spec j (S i + c)); destruct (Nat.leb_spec i j);
+        destruct (Nat.ltb_spec j (i + S c)); destruct (Nat.eqb_spec j i); cbn [andb]; subst; auto; try lia.
+Qed.
+
+Lemma count_ready_spec : forall n tp i b, (forall j, i <= j < b -> is_full (tget tp j) = true) ->
+  is_full (tget tp b) = false -> i <= b -> count_ready tp i n = Nat.min n (b - i).
+Proof.
+  induction n as [|n IH]; intros tp i b F N L; cbn [count_ready]; auto.
+  unfold pop_ready. destruct (Nat.eq_dec i b) as [->|Hne].
+  - rewrite N. lia.
+  - rewrite (F i ltac:(lia)). rewrite (IH tp (S i) b); try lia; auto. intros j Hj. apply F. lia.
+Qed.
+
+Definition fullrange (tp : list cell) (a b : nat) : Prop := forall j, is_full (tget tp j) = true <-> a <= j < b.
+
+Lemma try_pop_cont_spec : forall s a b n, fullrange (tape s) a b -> a <= b ->
+  snd (try_pop_cont s a n) = Nat.min n (b - a) /\
+  fullrange (tape (fst (try_pop_cont s a n))) (a + Nat.min n (b - a)) b /\
+  same_rest s (fst (try_pop_cont s a n)).
+Proof.
+  intros s a b n FR L. unfold try_pop_cont.
+  assert (C : count_ready (tape s) a n = Nat.min n (b - a)).
+  { apply count_ready_spec; auto.
+    - intros j Hj. apply FR. auto.
+    - destruct (is_full (tget (tape s) b)) eqn:E; auto. apply FR in E. lia. }
+  rewrite C. destruct (Nat.eqb_spec (Nat.min n (b - a)) 0) as [e|e]; cbn [fst snd].
+  - rewrite e. rewrite Nat.add_0_r. split; [reflexivity|]. split; [exact FR|]. repeat split; auto.
+  - destruct (drop_cells_spec (Nat.min n (b - a)) (with_ctr s false (a + Nat.min n (b - a))) a) as (A & (B1 & B2 & B3 & B4 & B5) & _).
+    split; [reflexivity|]. split.
+    + intros j. rewrite A. cbn [with_ctr tape]. pose proof (FR j) as Fj.
+      destruct (Nat.leb_spec a j); destruct (Nat.ltb_spec j (a + Nat.min n (b - a))); cbn [andb].
+      * split; intro X; [destruct (tget (tape s) j); discriminate | lia].
+      * rewrite Fj. lia.
+      * rewrite Fj. lia.
+      * rewrite Fj. lia.
+    + split; [exact B1|]. split; [exact B2|]. split; [exact B3|]. split; [exact B4|]. exact B5.
+Qed.
+
+Theorem pa_dtor_returns_cache : forall s, Inv s -> quiescent s = true ->
+  tape_pages (tape (dtor s)) = [] /\ Permutation (returned (dtor s)) (returned s ++ tape_pages (tape s)) /\
+  threads (dtor s) = threads s /\ fresh (dtor s) = fresh s.
+Proof.
+  intros s I Q. destruct (tape_shape s I (quiescent_no_owner s Q)) as (A & B & C & D & E).
+  assert (FR : fullrange (tape s) (npop s) (npush s)).
+  { intros j. split.
+    - intros F. destruct (Nat.lt_ge_cases j (npop s)) as [X|X]; [rewrite (A j X) in F; discriminate|].
+      destruct (Nat.lt_ge_cases j (npush s)) as [Y|Y]; [lia|]. rewrite (C j Y) in F. discriminate.
+    - apply B. }
+  assert (FIN : forall s1, fullrange (tape s1) (npush s) (npush s) -> same_rest s s1 ->
+                tape_pages (tape s1) = [] /\ Permutation (returned s1) (returned s ++ tape_pages (tape s)) /\
+                threads s1 = threads s /\ fresh s1 = fresh s).
+  { intros s1 F (R1 & R2 & R3 & R4 & R5).
+    assert (T : tape_pages (tape s1) = []).
+    { apply tape_pages_none. intro j. destruct (is_full (tget (tape s1) j)) eqn:X; auto. apply F in X. lia. }
+    repeat split; auto. apply perm_of_cnt. intro x. specialize (R5 x). unfold psum in R5. rewrite T, cnt_nil in R5.
+    rewrite cnt_app. lia. }
+  unfold dtor. rewrite dtor_num_spec. unfold try_pop_n_seq.
+  pose proof (round_end_gt (qcap s) (npop s) (i_q _ I)) as RB. set (rb := round_end (qcap s) (npop s)) in *.
+  destruct (Nat.leb_spec (npop s + qcap s) rb) as [X|X].
+  - destruct (try_pop_cont_spec s (npop s) (npush s) (npop s + qcap s - npop s) FR D) as (S1 & S2 & S3).
+    apply FIN; auto. replace (npop s + Nat.min (npop s + qcap s - npop s) (npush s - npop s)) with (npush s) in S2 by lia. exact S2.
+  - destruct (try_pop_cont_spec s (npop s) (npush s) (rb - npop s) FR D) as (S1 & S2 & S3).
+    destruct (try_pop_cont s (npop s) (rb - npop s)) as [s1 popped] eqn:TP. cbn [fst snd] in *.
+    destruct (Nat.ltb_spec popped (rb - npop s)) as [Y|Y].
+    + apply FIN; auto. replace (npop s + Nat.min (rb - npop s) (npush s - npop s)) with (npush s) in S2 by lia. exact S2.
+    + replace (npop s + Nat.min (rb - npop s) (npush s - npop s)) with rb in S2 by lia.
+      destruct (try_pop_cont_spec s1 rb (npush s) (npop s + qcap s - rb) S2 ltac:(lia)) as (U1 & U2 & U3).
+      apply FIN.
+      * replace (rb + Nat.min (npop s + qcap s - rb) (npush s - rb)) with (npush s) in U2 by lia. exact U2.
+      * destruct S3 as (R1 & R2 & R3 & R4 & R5). destruct U3 as (V1 & V2 & V3 & V4 & V5).
+        split; [congruence|]. split; [congruence|]. split; [congruence|]. split; [congruence|]. intros x. rewrite V5. auto.
+Qed.
+
+(* ------------------------------------------------------------------ strict pool never creates objects *)
+Definition strict_op (o : op) : bool := match o with ONew | OSPop | OSPush | OTryPop => true | _ => false end.
+Definition strict_progs (progs : list (list op)) : bool := forallb (forallb strict_op) progs.
+Definition is_new (r : res) : bool := match r with RNew _ => true | _ => false end.
+Definition nnew (th : thread) : nat := length (filter is_new (results th)).
+Definition news (s : st) : nat := list_sum (map nnew (threads s)).
+Definition strict_pc (p : pc) : bool := match p with Idle | SWait _ _ | YVer _ | YCas _ | YAct _ => true | _ => false end.
+Record SInv (s : st) : Prop := {
+  s_prog : forall t th, nth_error (threads s) t = Some th -> forallb strict_op (prog th) = true /\ strict_pc (tpc th) = true;
+  s_news : fresh s = news s }.
+
+Lemma sum_set_nth : forall (f : thread -> nat) l t th th', nth_error l t = Some th ->
+  list_sum (map f (set_nth t th' l)) + f th = list_sum (map f l) + f th'.
+Proof.
+  induction l; intros [|t] th th' H; cbn [set_nth map nth_error] in *; try discriminate; rewrite !(list_sum_app [_]) || idtac.
+  - inversion H; subst. cbn [list_sum fold_right]. unfold list_sum. cbn [fold_right]. lia.
+  - specialize (IHl t th th' H). unfold list_sum in *. cbn [fold_right]. lia.
+Qed.
+
+Lemma take_same : forall s k s1 l, take s k = (s1, l) -> threads s1 = threads s /\ fresh s1 = fresh s.
+Proof. intros s k s1 l H. unfold take in H. destruct (tget (tape s) k); inversion H; subst; auto. Qed.
+Lemma put_same : forall s k p, threads (put s k p) = threads s /\ fresh (put s k p) = fresh s.
+Proof. intros. unfold put. destruct (is_free (tget (tape s) k) && push_ready (qcap s) (tape s) k); auto. Qed.
+
+Lemma sinv_upd : forall s s1 t th th', SInv s -> nth_error (threads s) t = Some th -> threads s1 = threads s ->
+  prog th' = prog th -> strict_pc (tpc th') = true -> fresh s1 + nnew th = fresh s + nnew th' -> SInv (upd s1 t th').
+Proof.
+  intros s s1 t th th' S Ht Hths Hp Hpc Hf. constructor.
+  - intros t2 th2 H2. cbn [upd with_threads threads] in H2. rewrite Hths in H2.
+    destruct (nth_upd_cases _ _ _ _ _ _ _ Ht H2) as [[-> ->]|[Hne H2']].
+    + rewrite Hp. split; auto. apply (s_prog _ S _ _ Ht).
+    + apply (s_prog _ S _ _ H2').
+  - unfold news. cbn [upd with_threads threads fresh]. rewrite Hths.
+    pose proof (sum_set_nth nnew (threads s) t th th' Ht). pose proof (s_news _ S). unfold news in *. lia.
+Qed.
+
+Lemma nnew_finish : forall th h r, nnew (finish th h r) = nnew th + (if is_new r then 1 else 0).
+Proof. intros. unfold nnew. cbn [finish results]. rewrite filter_app, app_length. cbn. destruct (is_new r); reflexivity. Qed.
+
+Lemma sinv_step : forall s t s', SInv s -> step s t = Some s' -> SInv s'.
+Proof.
+  intros s t s' S H. unfold step in H. destruct (nth_error (threads s) t) as [th|] eqn:Ht; [|discriminate].
+  destruct (s_prog _ S _ _ Ht) as [Pg Pc]. unfold step_thread in H.
+  destruct (tpc th) eqn:P; try discriminate Pc.
+  - destruct (cur_op th) as [o|] eqn:Op; [|discriminate].
+    assert (So : strict_op o = true).
+    { unfold cur_op in Op. apply nth_error_In in Op. rewrite forallb_forall in Pg. auto. }
+    destruct o; try discriminate So.
+    + inversion H; subst s'; clear H. eapply sinv_upd; eauto. rewrite nnew_finish. cbn. lia.
+    + inversion H; subst s'; clear H. eapply sinv_upd; eauto.
+    + destruct (held th); inversion H; subst s'; clear H; eapply sinv_upd; eauto. rewrite nnew_finish. cbn. lia.
+    + inversion H; subst s'; clear H. eapply sinv_upd; eauto.
+  - destruct r.
+    + destruct (push_ready (qcap s) (tape s) i); try discriminate. destruct (buf th); inversion H; subst s'; clear H.
+      * eapply sinv_upd; eauto. rewrite nnew_finish. cbn. lia.
+      * destruct (put_same s i n). eapply sinv_upd; eauto. rewrite nnew_finish. cbn. lia.
+    + destruct (pop_ready (tape s) i); try discriminate. destruct (take s i) as [s1 l] eqn:T.
+      destruct (take_same _ _ _ _ T). inversion H; subst s'; clear H. eapply sinv_upd; eauto.
+      rewrite nnew_finish. destruct l; cbn; lia.
+  - destruct (pop_ready (tape s) k); [|destruct (npop s =? k)]; inversion H; subst s'; clear H; eapply sinv_upd; eauto.
+    rewrite nnew_finish. cbn. lia.
+  - destruct (npop s =? k); inversion H; subst s'; clear H; eapply sinv_upd; eauto.
+  - destruct (take s k) as [s1 l] eqn:T. destruct (take_same _ _ _ _ T). inversion H; subst s'; clear H.
+    eapply sinv_upd; eauto. rewrite nnew_finish. cbn. lia.
+Qed.
+
+Lemma sinv_init : forall qc pc progs, strict_progs progs = true -> SInv (init qc pc progs).
+Proof.
+  intros qc pc progs SP. constructor.
+  - intros t th H. cbn [init threads] in H. rewrite nth_error_map in H. destruct (nth_error progs t) as [p|] eqn:E; inversion H; subst.
+    cbn. split; auto. unfold strict_progs in SP. rewrite forallb_forall in SP. apply SP. eapply nth_error_In; eauto.
+  - unfold news. cbn [init threads fresh]. induction progs; cbn; auto. apply IHprogs. cbn in SP. apply andb_prop in SP. tauto.
+Qed.
+
+Theorem pa_strict_never_creates : forall qc pc progs s, strict_progs progs = true -> Reach qc pc progs s -> fresh s = news s.
+Proof.
+  intros qc pc progs s SP R. apply s_news. eapply (inv_reachable st step SInv); eauto.
+  - apply sinv_init; auto.
+  - intros. eapply sinv_step; eauto.
+Qed.
+
+(* objects outstanding (held by callers) never exceed the objects injected by the clients *)
+Theorem pa_strict_bound : forall qc pc progs s, 1 <= qc -> strict_progs progs = true -> Reach qc pc progs s ->
+  length (all_held s) + length (tape_pages (tape s)) <= news s.
+Proof.
+  intros qc pc progs s Hq SP R. rewrite <- (pa_strict_never_creates _ _ _ _ SP R).
+  pose proof (Permutation_length (pa_conservation s (pa_inv _ _ _ _ Hq R))) as L. unfold pages_of in L.
+  rewrite !app_length, seq_length in L. lia.
+Qed.
+
+(* ------------------------------------------------------------------ recycler: one run per object handed to push *)
+Definition rp (s : st) : list nat * list nat := (recycled s, pushes s).
+Lemma rp_take : forall s k, rp (fst (take s k)) = rp s.
+Proof. intros. unfold take. destruct (tget (tape s) k); reflexivity. Qed.
+Lemma rp_put : forall s k p, rp (put s k p) = rp s.
+Proof. intros. unfold put. destruct (is_free (tget (tape s) k) && push_ready (qcap s) (tape s) k); reflexivity. Qed.
+
+Lemma rec_step : forall s t s', recycled s = pushes s -> step s t = Some s' -> recycled s' = pushes s'.
+Proof.
+  intros s t s' E H. unfold step in H. destruct (nth_error (threads s) t) as [th|]; [|discriminate].
+  assert (G : forall s1, rp s1 = rp s -> recycled s1 = pushes s1) by (intros s1 X; inversion X; congruence).
+  assert (T : forall k, rp (fst (take s k)) = rp s) by (apply rp_take).
+  unfold step_thread, upstream_alloc, upstream_free in H.
+  destruct (tpc th); try destruct (cur_op th) as [[]|]; try destruct r;
+    repeat match type of H with
+    | context [take s ?k] => let s1 := fresh "s1" in let l := fresh "l" in let X := fresh "X" in
+                             specialize (T k); destruct (take s k) as [s1 l] eqn:X; cbn [fst] in T
+    | context [if ?x then _ else _] => destruct x
+    | context [match ?x with _ => _ end] => destruct x
+    end; try discriminate; inversion H; subst s'; clear H;
+    try (apply G; first [exact T | reflexivity]);
+    try (cbn; rewrite E; reflexivity);
+    try (apply G; cbn [rp recycled pushes upd with_threads with_mem]; inversion T; reflexivity);
+    try (apply G; match goal with |- rp (upd (put ?s0 ?k ?p) _ _) = _ => change (rp (put s0 k p) = rp s); rewrite rp_put; reflexivity end).
+Qed.
+
+Theorem pa_recycle_once : forall qc pc progs s, Reach qc pc progs s -> recycled s = pushes s.
+Proof.
+  intros qc pc progs s R. eapply (inv_reachable st step (fun s => recycled s = pushes s)); eauto.
+  - reflexivity.
+  - intros. eapply rec_step; eauto.
+Qed.
+
+(* =========================================================================================== PART B *)
+Lemma cnt_concat_set_nth : forall (l : list (list nat)) t h h' x, nth_error l t = Some h ->
+  cnt (concat (set_nth t h' l)) x + cnt h x = cnt (concat l) x + cnt h' x.
+Proof.
+  induction l; intros [|t] h h' x H; cbn in *; try discriminate.
+  - inversion H; subst. rewrite !cnt_app. lia.
+  - rewrite !cnt_app. specialize (IHl t h h' x H). lia.
+Qed.
+Lemma len_concat_set_nth : forall (l : list (list nat)) t h h', nth_error l t = Some h ->
+  length (concat (set_nth t h' l)) + length h = length (concat l) + length h'.
+Proof.
+  induction l; intros [|t] h h' H; cbn in *; try discriminate.
+  - inversion H; subst. rewrite !app_length. lia.
+  - rewrite !app_length. specialize (IHl t h h' H). lia.
+Qed.
+Lemma cnt_rest_set_nth : forall (l : list bslot) t sl sl' x, nth_error l t = Some sl ->
+  cnt (flat_map slot_rest (set_nth t sl' l)) x + cnt (slot_rest sl) x = cnt (flat_map slot_rest l) x + cnt (slot_rest sl') x.
+Proof.
+  induction l; intros [|t] sl sl' x H; cbn in *; try discriminate.
+  - inversion H; subst. rewrite !cnt_app. lia.
+  - rewrite !cnt_app. specialize (IHl t sl sl' x H). lia.
+Qed.
+Lemma length_set_nth : forall A (l : list A) t x, length (set_nth t x l) = length l.
+Proof. induction l; intros [|t] x; cbn; auto. Qed.
+Lemma skipn_nth_cons : forall (l : list nat) n d, n < length l -> skipn n l = nth n l d :: skipn (S n) l.
+Proof. induction l; intros [|n] d H; cbn in *; try lia; auto. apply IHl. lia. Qed.
+
+(* the slots: sized to the batch, offset inside the buffer; nothing has been read outside a buffer *)
+Definition slots_ok (s : bst) : Prop :=
+  1 <= batch s /\ berr s = false /\
+  forall t sl, nth_error (slots s) t = Some sl -> length (bbuf sl) = batch s /\ bnext sl <= batch s.
+Definition brel (s s1 : bst) (l : list nat) : Prop :=
+  batch s1 = batch s /\ bheld s1 = bheld s /\ breturned s1 = breturned s /\ bcount s1 = bcount s /\
+  length (slots s1) = length (slots s) /\
+  forall x, cnt l x + cnt (flat_map slot_rest (slots s1)) x + (if x <? bfresh s then 1 else 0) =
+            cnt (flat_map slot_rest (slots s)) x + (if x <? bfresh s1 then 1 else 0).
+
+Lemma batch_alloc1_spec : forall s t, slots_ok s -> t < length (slots s) ->
+  slots_ok (fst (batch_alloc1 s t)) /\ brel s (fst (batch_alloc1 s t)) [snd (batch_alloc1 s t)].
+Proof.
+  intros s t (B & E & SL) Ht. unfold batch_alloc1.
+  destruct (nth_error (slots s) t) as [sl|] eqn:Hs; [|apply nth_error_None in Hs; lia].
+  rewrite (nth_error_nth _ _ bslot0 Hs). destruct (SL _ _ Hs) as [L N].
+  unfold batch_has, batch_refill_num, batch_next_after_refill, zn.
+  destruct (Z.ltb_spec (Z.of_nat (bnext sl)) (Z.of_nat (length (bbuf sl)))) as [X|X]; cbn [fst snd].
+  - (* served from the prefetch buffer *)
+    split.
+    + unfold slots_ok. cbn [slots batch berr]. split; [exact B|]. split; [exact E|]. intros t2 sl2 H2.
+      destruct (nth_upd_cases _ _ _ _ _ _ _ Hs H2) as [[-> ->]|[_ H2']]; [cbn; lia | apply (SL _ _ H2')].
+    + unfold brel. cbn [slots batch bheld breturned bcount bfresh]. repeat split; auto.
+      * apply length_set_nth.
+      * intros x. pose proof (cnt_rest_set_nth (slots s) t sl {| bbuf := bbuf sl; bnext := S (bnext sl) |} x Hs) as H.
+        change (slot_rest sl) with (skipn (bnext sl) (bbuf sl)) in H.
+        change (slot_rest {| bbuf := bbuf sl; bnext := S (bnext sl) |}) with (skipn (S (bnext sl)) (bbuf sl)) in H.
+        rewrite (skipn_nth_cons (bbuf sl) (bnext sl) 0) in H by lia.
+        rewrite (cnt_cons (nth (bnext sl) (bbuf sl) 0)) in H. lia.
+  - (* refill from upstream *)
+    assert (Nx : bnext sl = batch s) by lia.
+    replace (Z.to_nat (Z.of_nat (batch s))) with (batch s) by lia. replace (Z.to_nat (0 + 1)) with 1 by lia.
+    rewrite L. rewrite (skipn_all2 (bbuf sl)) by lia. rewrite app_nil_r.
+    destruct (batch s) as [|b] eqn:Bs; [lia|].
+    split.
+    + unfold slots_ok. cbn [berr batch slots]. split; [lia|]. split.
+      * rewrite E, Nat.leb_refl. reflexivity.
+      * intros t2 sl2 H2. destruct (nth_upd_cases _ _ _ _ _ _ _ Hs H2) as [[-> ->]|[_ H2']].
+        -- cbn [bbuf bnext]. rewrite seq_length. lia.
+        -- apply (SL _ _ H2').
+    + unfold brel. cbn [slots batch bheld breturned bcount bfresh]. repeat split; auto.
+      * apply length_set_nth.
+      * intros x. pose proof (cnt_rest_set_nth (slots s) t sl {| bbuf := seq (bfresh s) (S b); bnext := 1 |} x Hs) as H.
+        change (slot_rest sl) with (skipn (bnext sl) (bbuf sl)) in H.
+        change (slot_rest {| bbuf := seq (bfresh s) (S b); bnext := 1 |}) with (skipn 1 (seq (bfresh s) (S b))) in H.
+        rewrite (skipn_all2 (bbuf sl)) in H by lia.
+        cbn [seq skipn nth] in *. rewrite cnt_nil in H. rewrite cnt_one.
+        assert (Q : cnt (seq (S (bfresh s)) b) x = (if (S (bfresh s) <=? x) && (x <? S (bfresh s) + b) then 1 else 0)) by apply cnt_seq.
+        destruct (Nat.eqb_spec (bfresh s) x); destruct (Nat.ltb_spec x (bfresh s)); destruct (Nat.ltb_spec x (bfresh s + S b));
+          destruct (Nat.leb_spec (S (bfresh s)) x); destruct (Nat.ltb_spec x (S (bfresh s) + b)); cbn [andb] in Q; lia.
+Qed.
+
+Lemma brel_refl : forall s, brel s s [].
+Proof. intros. unfold brel. repeat split; auto; intros x; rewrite cnt_nil; lia. Qed.
+Lemma brel_trans : forall s s1 s2 l1 l2, brel s s1 l1 -> brel s1 s2 l2 -> brel s s2 (l1 ++ l2).
+Proof.
+  intros s s1 s2 l1 l2 (A1 & A2 & A3 & A4 & A5 & A6) (B1 & B2 & B3 & B4 & B5 & B6). unfold brel.
+  repeat split; try congruence. intros x. rewrite cnt_app. specialize (A6 x). specialize (B6 x). lia.
+Qed.
+
+Lemma batch_allocn_spec : forall n s t, slots_ok s -> t < length (slots s) ->
+  slots_ok (fst (batch_allocn s t n)) /\ brel s (fst (batch_allocn s t n)) (snd (batch_allocn s t n)) /\
+  length (snd (batch_allocn s t n)) = n.
+Proof.
+  induction n as [|n IH]; intros s t OK Ht; cbn [batch_allocn fst snd].
+  - split; auto. split; auto. apply brel_refl.
+  - destruct (batch_alloc1_spec s t OK Ht) as [OK1 R1]. destruct (batch_alloc1 s t) as [s1 p]. cbn [fst snd] in *.
+    assert (Ht1 : t < length (slots s1)) by (destruct R1 as (_ & _ & _ & _ & L & _); lia).
+    destruct (IH s1 t OK1 Ht1) as (OK2 & R2 & L2). destruct (batch_allocn s1 t n) as [s2 l]. cbn [fst snd] in *.
+    split; auto. split; [|cbn; lia]. apply (brel_trans s s1 s2 [p] l); auto.
+Qed.
+
+Record BInv (s : bst) : Prop := {
+  b_ok : slots_ok s;
+  b_len : length (bheld s) = length (slots s);
+  b_cnt : forall x, cnt (concat (bheld s)) x + cnt (flat_map slot_rest (slots s)) x + cnt (breturned s) x =
+                    if x <? bfresh s then 1 else 0;
+  b_count : bcount s = Z.of_nat (length (concat (bheld s))) }.
+
+Definition bop_thread (o : bop) : nat := match o with BAlloc t | BAllocN t _ | BFree t | BFreeN t _ => t end.
+
+Lemma binv_give : forall s s1 t l dc, BInv s -> slots_ok s1 -> brel s s1 l -> t < length (slots s) ->
+  dc = Z.of_nat (length l) -> BInv (b_give s1 t l dc).
+Proof.
+  intros s s1 t l dc I OK (R1 & R2 & R3 & R4 & R5 & R6) Ht Hdc.
+  destruct (nth_error (bheld s) t) as [h|] eqn:Hh; [|apply nth_error_None in Hh; rewrite (b_len _ I) in Hh; lia].
+  constructor; unfold b_give; cbn [batch slots bheld bfresh breturned bcount berr]; rewrite ?R2, ?R3.
+  - exact OK.
+  - rewrite length_set_nth. rewrite (b_len _ I). lia.
+  - intros x. rewrite (nth_error_nth _ _ [] Hh). pose proof (cnt_concat_set_nth (bheld s) t h (h ++ l) x Hh) as H.
+    rewrite cnt_app in H. pose proof (b_cnt _ I x). specialize (R6 x). lia.
+  - rewrite (nth_error_nth _ _ [] Hh). pose proof (len_concat_set_nth (bheld s) t h (h ++ l) Hh) as H.
+    rewrite app_length in H. rewrite R4, (b_count _ I), Hdc. lia.
+Qed.
+
+Lemma binv_return : forall s t k dc, BInv s -> t < length (slots s) -> k <= length (nth t (bheld s) []) ->
+  dc = (- Z.of_nat k)%Z -> BInv (b_return s t k dc).
+Proof.
+  intros s t k dc I Ht Hk Hdc.
+  destruct (nth_error (bheld s) t) as [h|] eqn:Hh; [|apply nth_error_None in Hh; rewrite (b_len _ I) in Hh; lia].
+  rewrite (nth_error_nth _ _ [] Hh) in Hk.
+  constructor; unfold b_return; cbn [batch slots bheld bfresh breturned bcount berr]; rewrite (nth_error_nth _ _ [] Hh).
+  - exact (b_ok _ I).
+  - rewrite length_set_nth. apply (b_len _ I).
+  - intros x. pose proof (cnt_concat_set_nth (bheld s) t h (skipn k h) x Hh) as H. rewrite cnt_app.
+    pose proof (cnt_firstn_skipn k h x). pose proof (b_cnt _ I x). lia.
+  - pose proof (len_concat_set_nth (bheld s) t h (skipn k h) Hh) as H. rewrite skipn_length in H.
+    rewrite (b_count _ I), Hdc. lia.
+Qed.
+
+Lemma binv_step : forall s o, BInv s -> bop_thread o < length (slots s) -> BInv (bstep s o).
+Proof.
+  intros s o I Ht. destruct o as [t|t n|t|t n]; cbn [bop_thread] in Ht; cbn [bstep].
+  - destruct (batch_alloc1_spec s t (b_ok _ I) Ht) as [OK R]. destruct (batch_alloc1 s t) as [s1 p]. cbn [fst snd] in *.
+    eapply binv_give; eauto.
+  - destruct (batch_allocn_spec n s t (b_ok _ I) Ht) as (OK & R & L). destruct (batch_allocn s t n) as [s1 l]. cbn [fst snd] in *.
+    eapply binv_give; eauto. unfold count_allocn, zn. lia.
+  - destruct (nth t (bheld s) []) eqn:E; auto. apply binv_return; auto. rewrite E. cbn. lia.
+  - apply binv_return; auto; try lia.
+Qed.
+
+Lemma binv_init : forall b n, 1 <= b -> BInv (binit b n).
+Proof.
+  intros b n Hb. unfold binit, batch_slot_size, zn. replace (Z.to_nat (Z.of_nat b)) with b by lia.
+  constructor; cbn [batch slots bheld bfresh breturned bcount berr].
+  - split; auto. split; auto. intros t sl H. apply nth_error_In in H. apply repeat_spec in H. subst. cbn. rewrite repeat_length. lia.
+  - rewrite !repeat_length. reflexivity.
+  - intros x. replace (concat (repeat [] n)) with (@nil nat) by (induction n; cbn; auto).
+    replace (flat_map slot_rest (repeat {| bbuf := repeat 0 b; bnext := b |} n)) with (@nil nat).
+    + reflexivity.
+    + induction n; cbn; auto. unfold slot_rest at 1. cbn [bbuf bnext]. rewrite skipn_all2 by (rewrite repeat_length; lia). cbn. auto.
+  - replace (concat (repeat [] n)) with (@nil nat) by (induction n; cbn; auto). reflexivity.
+Qed.
+
+Definition bops_ok (n : nat) (ops : list bop) : Prop := Forall (fun o => bop_thread o < n) ops.
+
+Lemma bstep_nslots : forall s o, BInv s -> bop_thread o < length (slots s) -> length (slots (bstep s o)) = length (slots s).
+Proof.
+  intros s o I Ht. destruct o as [t|t n|t|t n]; cbn [bop_thread] in Ht; cbn [bstep].
+  - destruct (batch_alloc1_spec s t (b_ok _ I) Ht) as [_ (_ & _ & _ & _ & L & _)]. destruct (batch_alloc1 s t). exact L.
+  - destruct (batch_allocn_spec n s t (b_ok _ I) Ht) as (_ & (_ & _ & _ & _ & L & _) & _). destruct (batch_allocn s t n). exact L.
+  - destruct (nth t (bheld s) []); reflexivity.
+  - reflexivity.
+Qed.
+
+Theorem pb_inv : forall ops b n, 1 <= b -> bops_ok n ops -> BInv (brun (binit b n) ops) /\ length (slots (brun (binit b n) ops)) = n.
+Proof.
+  intros ops b n Hb. unfold brun.
+  assert (G : forall s, BInv s -> length (slots s) = n -> bops_ok n ops ->
+              BInv (fold_left bstep ops s) /\ length (slots (fold_left bstep ops s)) = n).
+  { induction ops as [|o ops IH]; intros s I L OK; cbn [fold_left]; auto.
+    inversion OK; subst. apply IH; auto.
+    - apply binv_step; auto.
+    - rewrite bstep_nslots; auto. }
+  intros OK. apply G; auto.
+  - apply binv_init; auto.
+  - unfold binit. cbn. apply repeat_length.
+Qed.
+
+Definition bpages (s : bst) : list nat := concat (bheld s) ++ flat_map slot_rest (slots s) ++ breturned s.
+
+Theorem pb_conservation : forall s, BInv s -> Permutation (bpages s) (seq 0 (bfresh s)) /\ NoDup (bpages s) /\ berr s = false.
+Proof.
+  intros s I. assert (C : forall x, cnt (bpages s) x = if x <? bfresh s then 1 else 0).
+  { intros x. unfold bpages. rewrite !cnt_app. pose proof (b_cnt _ I x). lia. }
+  split; [|split].
+  - apply perm_of_cnt. intros x. rewrite C, cnt_seq0. reflexivity.
+  - apply nodup_of_cnt. intros x. rewrite C. destruct (x <? bfresh s); lia.
+  - destruct (b_ok _ I) as (_ & E & _). exact E.
+Qed.
+
+Theorem pb_counting_exact : forall s, BInv s -> allocated_page_num s = Z.of_nat (length (concat (bheld s))).
+Proof. intros s I. unfold allocated_page_num, count_value. rewrite (b_count _ I). lia. Qed.
+
+Lemma bdtor_slot_spec : forall b ret sl, length (bbuf sl) = b -> bnext sl <= b -> (Z.of_nat b < 2 ^ 64)%Z ->
+  bdtor_slot ret sl = ret ++ slot_rest sl.
+Proof.
+  intros b ret sl L N W. unfold bdtor_slot, batch_dtor_has, batch_dtor_num, slot_rest, zn. rewrite L.
+  destruct (Z.ltb_spec (Z.of_nat (bnext sl)) (Z.of_nat b)) as [X|X].
+  - rewrite Z.mod_small by lia. rewrite firstn_all2; auto. rewrite skipn_length. lia.
+  - rewrite skipn_all2 by lia. rewrite app_nil_r. reflexivity.
+Qed.
+
+Theorem pb_dtor_returns_buffers : forall s, BInv s -> (Z.of_nat (batch s) < 2 ^ 64)%Z ->
+  flat_map slot_rest (slots (bdtor s)) = [] /\ breturned (bdtor s) = breturned s ++ flat_map slot_rest (slots s) /\
+  bheld (bdtor s) = bheld s.
+Proof.
+  intros s I W. destruct (b_ok _ I) as (_ & _ & SL). unfold bdtor. cbn [slots breturned bheld]. split; [|split; auto].
+  - clear SL. induction (slots s) as [|sl l IH]; cbn; auto. rewrite IH. unfold slot_rest. cbn [bbuf bnext]. rewrite skipn_all. reflexivity.
+  - assert (G : forall l ret, (forall sl, In sl l -> length (bbuf sl) = batch s /\ bnext sl <= batch s) ->
+                fold_left bdtor_slot l ret = ret ++ flat_map slot_rest l).
+    { induction l as [|sl l IH]; intros ret H; cbn [fold_left flat_map].
+      - rewrite app_nil_r. reflexivity.
+      - destruct (H sl (or_introl eq_refl)) as [L N]. rewrite (bdtor_slot_spec (batch s)); auto.
+        rewrite IH; [rewrite app_assoc; reflexivity|]. intros sl' Hin. apply H. right. auto. }
+    apply G. intros sl Hin. apply In_nth_error in Hin. destruct Hin as [t Ht]. apply (SL _ _ Ht).
+Qed.
